@@ -474,9 +474,15 @@ func rdbRun(scn rdbScenario, built *rdbBuilt, ch *mc.Chooser, hooks *rdbHooks) *
 		vsel.SetPicker(hooks.Picker)
 		defer vsel.SetPicker(nil)
 	}
+	// RESTORE of a value type the target's version does not know: a server looks at the key first (BUSYKEY
+	// when it exists and REPLACE is not given) and at the payload second ("Bad data format"). Whether the key
+	// exists is looked up by the driver just before it lets the request through (gateBad), the refusal itself
+	// is issued when the command executes (possibly inside EXEC).
+	gateBad := map[string]bool{}
+	connDB := map[int]int{}
 	if scn.Cfg.TargetVer != "" {
 		srv.Version = scn.Cfg.TargetVer
-		srv.Extra = rdbVersionGate(scn.Cfg.TargetVer)
+		srv.Extra = rdbVersionGate(scn.Cfg.TargetVer, gateBad)
 	}
 	if hooks != nil && hooks.Prepare != nil {
 		hooks.Prepare(srv)
@@ -555,6 +561,23 @@ func rdbRun(scn rdbScenario, built *rdbBuilt, ch *mc.Chooser, hooks *rdbHooks) *
 						time.Sleep(2 * time.Millisecond)
 					}
 				}
+				if len(argv) > 1 && strings.EqualFold(string(argv[0]), "select") {
+					var n int
+					if _, err := fmt.Sscanf(string(argv[1]), "%d", &n); err == nil {
+						connDB[c] = n
+					}
+				}
+				if scn.Cfg.TargetVer != "" && len(argv) > 3 && strings.EqualFold(string(argv[0]), "restore") && len(argv[3]) > 0 && !rdbKnownType(scn.Cfg.TargetVer, argv[3][0]) {
+					replace := false
+					for _, a := range argv[4:] {
+						if strings.EqualFold(string(a), "REPLACE") {
+							replace = true
+						}
+					}
+					if replace || srv.Get(connDB[c], string(argv[1])) == nil {
+						gateBad[string(argv[1])] = true
+					}
+				}
 				if hooks != nil && hooks.BeforeReq != nil {
 					hooks.BeforeReq(srv, idx, argv)
 				}
@@ -593,20 +616,21 @@ func rdbRun(scn rdbScenario, built *rdbBuilt, ch *mc.Chooser, hooks *rdbHooks) *
 // of its own RDB version (an unknown one is "Bad data format"), streams exist from 5.0, XSETID
 // takes ENTRIESADDED/MAXDELETEDID and XGROUP CREATE takes ENTRIESREAD from 7.0, FUNCTION
 // exists from 7.0. Everything else falls through to the double.
-func rdbVersionGate(ver string) func(s *redisd.Server, cs *redisd.ConnState, argv [][]byte) []byte {
-	knownType := func(t byte) bool {
-		switch {
-		case t <= 7 || (t >= 9 && t <= 14):
-			return true
-		case t == 15:
-			return rdbVerGE(ver, 5, 0)
-		case t >= 16 && t <= 19:
-			return rdbVerGE(ver, 7, 0)
-		case t == 20 || t == 21:
-			return rdbVerGE(ver, 7, 2)
-		}
-		return false
+func rdbKnownType(ver string, t byte) bool {
+	switch {
+	case t <= 7 || (t >= 9 && t <= 14):
+		return true
+	case t == 15:
+		return rdbVerGE(ver, 5, 0)
+	case t >= 16 && t <= 19:
+		return rdbVerGE(ver, 7, 0)
+	case t == 20 || t == 21:
+		return rdbVerGE(ver, 7, 2)
 	}
+	return false
+}
+
+func rdbVersionGate(ver string, bad map[string]bool) func(s *redisd.Server, cs *redisd.ConnState, argv [][]byte) []byte {
 	errReply := func(msg string) []byte { return []byte("-" + msg + "\r\n") }
 	return func(s *redisd.Server, cs *redisd.ConnState, argv [][]byte) []byte {
 		name := strings.ToLower(string(argv[0]))
@@ -618,7 +642,8 @@ func rdbVersionGate(ver string) func(s *redisd.Server, cs *redisd.ConnState, arg
 					return errReply("ERR syntax error")
 				}
 			}
-			if len(argv) > 3 && len(argv[3]) > 0 && !knownType(argv[3][0]) {
+			if len(argv) > 1 && bad[string(argv[1])] {
+				delete(bad, string(argv[1]))
 				return errReply("ERR Bad data format")
 			}
 		case "xadd", "xsetid", "xgroup", "xclaim":
